@@ -97,8 +97,11 @@ func legFor(property string, rng *rand.Rand, tier string) string {
 		}
 		return "uci-real"
 	case "C07":
-		if x < 80 {
+		switch {
+		case x < 50:
 			return "search"
+		case x < 85:
+			return "search-game"
 		}
 		return "uci-real"
 	case "C08":
@@ -132,6 +135,8 @@ func generateCase(property string, tier string, run, seed uint64) (*RunCase, *ra
 	switch rc.Leg {
 	case "search":
 		rc.Search = genSearchScenario(rng, strings.ToLower(property), thorough)
+	case "search-game":
+		rc.Search = genSearchScenario(rng, "c07game", thorough)
 	case "uci-stub", "uci-real", "uci-sweep":
 		cfg := drawUCIGenCfg(rng, rc.Leg == "uci-stub")
 		switch property {
